@@ -4,6 +4,7 @@ package props
 import (
 	"encoding/json"
 	"fmt"
+	oidccrypto "github.com/zitadel/oidc/v3/pkg/crypto"
 	"slices"
 	"sort"
 	"strings"
@@ -94,3 +95,5 @@ func audList(v any) []string {
 }
 
 func jsonUnmarshal(s string, v any) error { return json.Unmarshal([]byte(s), v) }
+
+func encryptAES(plain, key string) (string, error) { return oidccrypto.EncryptAES(plain, key) }
